@@ -23,7 +23,7 @@ ASSUMPTIONS = ["mazes in which every row and column index occurs in some connect
 NSHARDS = {"quick": 16, "thorough": 16}
 MODES = ["AOTP_UT_rasterized", "AOTP_UT_uniform", "AOTP_CTT_indexed"]
 KINDS = ["LatticeMaze", "TargetedLatticeMaze", "SolvedMaze"]
-THRESHOLDS = {"quick": {**{f"c07:rt:{m}:{k}:{f}": 20 for m in MODES for k in KINDS for f in ("list", "str")},
+THRESHOLDS = {"quick": {"c07:rt:via-other-class": 1500, **{f"c07:rt:{m}:{k}:{f}": 20 for m in MODES for k in KINDS for f in ("list", "str")},
                         **{f"c07:rt:modular:{m}:{k}": 20 for m in MODES for k in KINDS},
                         "c07:grid>=11": 50, "c07:one-cell-solution": 20, "c07:two-cell-solution": 20, "c07:legacy-vs-modular": 400,
                         "c07:dataset-as_tokens": 100, "c07:mgs:None": 100, "c07:mgs:n": 100, "c07:mgs:50": 100}}
@@ -148,6 +148,15 @@ def run(ctx):
                         elif tname == "modular":
                             ctx.tally(f"c07:rt:modular:{mode_name}:{kind}")
                         same_maze(ctx, back, cls, cl, s, e, sol, kind, mech + f"/{form}", case)
+                    # the parser may be reached through any of the three classes; the maze that comes back is the one that was
+                    # tokenized (same kind as the original), whichever class the classmethod was called on
+                    for via_name, via in CLS.items():
+                        if via is cls:
+                            continue
+                        form = "list" if (j + len(via_name)) % 2 else "str"
+                        back = via.from_tokens(toks if form == "list" else " ".join(toks), tok)
+                        ctx.ev(); ctx.tally("c07:rt:via-other-class")
+                        same_maze(ctx, back, cls, cl, s, e, sol, kind, f"C07/roundtrip/{tname}/{mode_name}/{kind}/via-{via_name}", case)
                     if n >= 3:
                         ctx.nontrivial(tname, mode_name, mgs, kind, cl, s, e, np.asarray(sol))
                 except Exception as ex:  # noqa: BLE001
